@@ -4,7 +4,10 @@
    p_clone_struct_fixed / p_slice_clamped of the model parameters, so that the model follows the code that is present.
      dump_rtfix clone-struct      9 x push_struct(3 bytes), dyn_array_clone, compare
      dump_rtfix slice-overflow    nl_array_slice([1,2,3], 1, INT64_MAX) must be [2,3]
-     dump_rtfix push-own-elem     push_struct(a, get_struct(a, i), elem_size) with length == capacity */
+     dump_rtfix push-own-elem     push_struct(a, get_struct(a, i), elem_size) with length == capacity
+   and measures the out-of-range policy of the struct accessors (not a repair guard: the model follows either answer):
+     dump_rtfix struct-oob-get    get_struct(a, length): prints NULL when it answers NULL; dies by SIGABRT when it asserts
+     dump_rtfix struct-oob-set    set_struct(a, length, ...): prints DROPPED when it returns with the array unchanged; SIGABRT when it asserts */
 #include <stdio.h>
 #include <stdlib.h>
 #include <string.h>
@@ -44,6 +47,20 @@ int main(int argc, char **argv) {
         uint8_t *p8 = dyn_array_get_struct(a, 8), *p16 = dyn_array_get_struct(a, 16);
         if (dyn_array_length(a) != 17 || !p8 || p8[0] != 0 || p8[2] != 100 || !p16 || p16[0] != 15 || p16[2] != 115) return 3;
         printf("OK\n"); return 0;
+    }
+    if (!strcmp(argv[1], "struct-oob-get") || !strcmp(argv[1], "struct-oob-set")) {
+        DynArray *a = dyn_array_new(ELEM_STRUCT);
+        uint8_t s[3] = {1, 2, 3}, z[3] = {9, 9, 9};
+        dyn_array_push_struct(a, s, 3);
+        if (argv[1][11] == 'g') {
+            void *p = dyn_array_get_struct(a, 1); void *n = dyn_array_get_struct(a, -1);
+            if (p == NULL && n == NULL) { printf("NULL\n"); return 0; }
+            return 3;
+        }
+        dyn_array_set_struct(a, 1, z, 3); dyn_array_set_struct(a, -1, z, 3);
+        uint8_t *q = dyn_array_get_struct(a, 0);
+        if (dyn_array_length(a) == 1 && q && q[0] == 1 && q[2] == 3) { printf("DROPPED\n"); return 0; }
+        return 3;
     }
     return 2;
 }
